@@ -184,7 +184,14 @@ impl Compactor {
 		// Get active snapshots for snapshot-aware compaction
 		// This is a snapshot of the snapshot list at the start of compaction.
 		// Any snapshots created during compaction will be handled by the next compaction.
-		let snapshots = self.options.snapshot_tracker.get_all_snapshots();
+		// Snapshots registered after this point start at or above `horizon`: the
+		// horizon counts as a snapshot, and versions above it are all kept.
+		let (mut snapshots, horizon) = self.options.snapshot_tracker.capture();
+		if let Some(h) = horizon {
+			if let Err(pos) = snapshots.binary_search(&h) {
+				snapshots.insert(pos, h);
+			}
+		}
 		#[cfg(surrealkv_verif)]
 		crate::verif::yp("compact:snapshots_captured");
 
@@ -200,6 +207,7 @@ impl Compactor {
 			Arc::clone(&self.options.lopts.clock),
 			snapshots,
 		);
+		comp_iter.set_visible_horizon(horizon);
 
 		let mut entries = 0;
 		for item in &mut comp_iter {
